@@ -21,7 +21,7 @@ func init() {
 	register(&Property{
 		ID:        "C27",
 		Title:     "Felix configuration resolves by source priority, deterministically",
-		Technique: "static analysis: per-iteration cut-set guards and value provenance on the SSA of Config.resolve, map-iteration determinism, struct-tag/constant tables (go/ssa, go/types, go/ast over felix/config)",
+		Technique: "static analysis: per-iteration cut-set guards and value provenance on the SSA of Config.resolve, map-iteration determinism, struct-tag/constant tables, operand projections of comparator parameters (go/ssa, go/types, go/ast over felix/config and felix/calc)",
 		DesignRef: "DESIGN.md §3 C27",
 		Explanation: "Decides structural clauses of the property on Config.resolve's per-value loop (the innermost loop around the Param.Parse / reflect Set sites): " +
 			"(shadowfirst) every effect of one raw value (stores to Config fields, reflect Set, map updates, early returns) is only reachable, within its iteration, across an edge establishing source >= currentSource, " +
@@ -31,9 +31,12 @@ func init() {
 			"(order) inside a range over a Go map no last-writer-wins effect is keyed by a non-injective function of the range key unless the stored value is iteration-invariant; " +
 			"(record) the currentSource cell is looked up under the same key as knownParams, every iteration that writes a value cell also stores the loop's source into that cell, and applyDefaults() runs on the receiver before the loops; " +
 			"(sources) SourcesInDescendingOrder lists every non-zero Source constant in strictly descending order matching the documented priority, resolve iterates it, and Source.Local() is true exactly for the four local sources; " +
-			"(meta) every config: struct tag matches the metadata regexp, names a kind handled by ParamForField, carries only flags that loadParams tests, and oneof defaults are among the options.",
+			"(meta) every config: struct tag matches the metadata regexp, names a kind handled by ParamForField, carries only flags that loadParams tests, and oneof defaults are among the options; " +
+			"(comparator) the DatastorePerSelector source is the single selector-scoped FelixConfiguration picked by calc.MergeSelectorConfigs from a slice that the runtime path builds by ranging over a Go map, so the pick is order-independent only if the comparator is a total order: " +
+			"in every comparator over calc.SelectorConfigEntry handed to a slices/sort function, each comparison step (comparison operator, two-operand bool/int call such as Before/Compare/strings.Compare/a helper, subtraction) whose operands are projections of the comparator's parameters compares the same projection of the two different parameters, " +
+			"and one such step compares the entries' unique key (the field ConfigBatcher stores its map key into: ResourceName).",
 		NotDecided: "The parsers of the individual parameter types (Param.Parse implementations) and reflect's FieldByName/Set semantics; which of several fatal errors is reported when more than one unshadowed value is fatally invalid; " +
-			"what callers do with Config.Err / UpdateFrom's result (Config.Err is never reset by a later successful resolve); contents of the raw maps handed to UpdateFrom by the loaders (env_var_loader / file_loader fold names and walk slices, not maps); that applyDefaults' per-parameter setDefault writes only its own field.",
+			"what callers do with Config.Err / UpdateFrom's result (Config.Err is never reset by a later successful resolve); contents of the raw maps handed to UpdateFrom by the loaders (env_var_loader / file_loader fold names and walk slices, not maps); that applyDefaults' per-parameter setDefault writes only its own field; antisymmetry/transitivity of the selector-config comparator beyond operand well-formedness (e.g. a step tested twice in the same direction), and which of creation time / name takes precedence.",
 		Assumptions: []string{
 			"go/types + go/ssa (x/tools v0.50.0) model of the current source, CGO_ENABLED=0 build",
 			"logrus calls have no effect on configuration; logrus Panic*/Fatal* do not return",
@@ -102,6 +105,15 @@ func init() {
 			{Name: "oneof default outside the options", File: cp,
 				Old: "oneof(Enabled,Disabled,EnabledIPIPOnly,EnabledNoEncapOnly);EnabledIPIPOnly", New: "oneof(Enabled,Disabled,EnabledIPIPOnly,EnabledNoEncapOnly);IPIPOnly",
 				Expect: "C27.meta/ProgramClusterRoutes"},
+			{Name: "selector-config name tie-break compares an entry with itself", File: "felix/calc/config_batcher.go",
+				Old: "\t\tif a.ResourceName > b.ResourceName {\n", New: "\t\tif a.ResourceName > a.ResourceName {\n",
+				Expect: "C27.comparator/sym/MergeSelectorConfigs/MinFunc"},
+			{Name: "selector-config age test compares b with b", File: "felix/calc/config_batcher.go",
+				Old: "\t\tif b.CreationTime.Before(a.CreationTime) {\n", New: "\t\tif b.CreationTime.Before(b.CreationTime) {\n",
+				Expect: "C27.comparator/sym/MergeSelectorConfigs/MinFunc"},
+			{Name: "selector-config tie-break on the resource name dropped", File: "felix/calc/config_batcher.go",
+				Old: "\t\tif a.ResourceName < b.ResourceName {\n\t\t\treturn -1\n\t\t}\n\t\tif a.ResourceName > b.ResourceName {\n\t\t\treturn 1\n\t\t}\n", New: "",
+				Expect: "C27.comparator/total/MergeSelectorConfigs/MinFunc"},
 		},
 	})
 }
@@ -362,6 +374,8 @@ func runC27(c *Ctx) {
 	c.Rule("C27.sources", "E-CONST/E-TABLE", "SourcesInDescendingOrder = all non-zero Source constants, strictly descending, in the documented priority; resolve iterates it; Source.Local() is true exactly for Default/ConfigFile/EnvironmentVariable/InternalOverride", 10)
 	c.Rule("C27.meta", "E-CONST", "every config: struct tag of Config matches the metadata regexp, its kind is a case of ParamForField, its flags are exactly tokens tested by loadParams, a oneof default is one of the options", 219)
 
+	c.Rule("C27.comparator", "E-FLOW (operand projections of the comparator's parameters)", "every comparator over calc.SelectorConfigEntry handed to a slices/sort function (it picks the per-selector configuration source from a slice built in map order): each comparison step compares the same projection of the two different parameters, and one step compares the unique key (the entry field ConfigBatcher stores its map key into)", 2)
+
 	m := c27Build(c, p)
 	c27Shadow(c, m)
 	c27Value(c, m)
@@ -370,6 +384,7 @@ func runC27(c *Ctx) {
 	c27Record(c, m)
 	c27Sources(c, m)
 	c27Meta(c, p)
+	c27Comparator(c)
 }
 
 func c27Shadow(c *Ctx, m *c27Model) {
